@@ -117,6 +117,11 @@ package nsqd
 //@   ensures[deadline] msg.pri == unixNano(lastNow) + timeout
 //@   ensures[registered] result == nil ==> lastPushed == msg
 //@   modifies msg.clientID, msg.deliveryTS, msg.pri, lastNow, lastPushed, c.inFlightMessages, c.inFlightPQ, mapstore(map[MessageID]*Message), elems(*Message), Message.index, deref(inFlightPqueue)
+//   what was registered, for the call-order clauses of the pump (ghosts in zz_contracts_lpump_verif.go)
+//@   onreturn lSiftMsg := msg
+//@   onreturn lSiftChan := c
+//@   onreturn lSiftClient := clientID
+//@   onreturn lSiftTimeout := timeout
 
 //@ benign (*github.com/nsqio/nsq/internal/quantile.Quantile).Insert
 
